@@ -236,14 +236,17 @@ def integrate(
     rec_states = module.recordings.state.to_numpy()
 
     # Synaptic states and currents are stored in one array per synapse type, whereas
-    # recordings refer to a synapse by its global edge index. Translate the global
-    # index into the index within the synapse type.
+    # recordings and clamps refer to a synapse by its global edge index. Translate the
+    # global index into the index within the synapse type.
     _, edge_states = module._get_state_names()
     is_edge_state = np.isin(rec_states, edge_states)
-    if np.any(is_edge_state):
+    clamped_edge_states = [key for key in externals.keys() if key in edge_states]
+    if np.any(is_edge_state) or clamped_edge_states:
         index_within_type = module.edges.groupby("type").cumcount().to_numpy()
         edge_inds = np.where(is_edge_state, rec_inds, 0).astype(int)
         rec_inds = np.where(is_edge_state, index_within_type[edge_inds], rec_inds)
+        for key in clamped_edge_states:
+            external_inds[key] = index_within_type[np.asarray(external_inds[key])]
 
     # Shorten or pad stimulus depending on `t_max`.
     if t_max is not None:
